@@ -15,8 +15,9 @@
    T3  c01_dp_prefix (all op lists, under the guards), c01_dp_prefix_unguarded_refuted (KF1),
        c01_prefix_sys_partial (pair states that ARE data-path states; the refinement
        poll_refines_dp of the whole poll is NOT proved), c01_pair_unguarded_refuted (KF1 on the
-       pair model, recognised by the classifier c01_kf1_class), c01_pair_channel_closed_refuted
-       (D17: retransmission after the message channel was closed, classifier c01_d17_class). *)
+       pair model, recognised by the classifier c01_kf1_class), c01_pair_channel_closed_regression
+       (D17, repaired: the former witness, a retransmission after the message channel was closed,
+       now satisfies c01_pair_ok and is not in the class c01_d17_class). *)
 From Utp Require Import Base.Prelude Wire.SeqNr Wire.Header Rtt.Rtte Mtu.SegSizes Rx.Rx Rx.Rx_Proofs Rx.Rx_Slots
   Tx.Ring Tx.Ring_Proofs Tx.Segments Tx.Segments_Proofs Conn.Recovery Conn.Msg Conn.VSockRec Conn.VSock
   Conn.VSockRun Conn.VObs Conn.C10_Pred Conn.VSock_Inv Pair.Pair Pair.DP Pair.DP_Lemmas Pair.DP_Proofs
@@ -160,19 +161,23 @@ Theorem c01_pair_unguarded_refuted :
     ha_len (p_rb (prun (fixed_cc w) s0 ops)) = 2047 /\ ha_len (p_wa (prun (fixed_cc w) s0 ops)) = 1980.
 Proof. exact Pair_Proofs.c01_pair_unguarded_refuted. Qed.
 
-Theorem c01_pair_channel_closed_refuted :
-  exists (w : Z) (cfg : pconfig) (ops : list pop) (s0 : pair (CC := unit)),
-    pair_new (fixed_cc w) (fun _ _ => tt) cfg = Some s0 /\
-    let tr := ptrace (fixed_cc w) s0 ops in
-    let evs := pevents (fixed_cc w) s0 ops in
-    c01_pair_ok (zip_obs ops tr) = false /\ c01_kf1_class evs = false /\ c01_d17_class evs = true /\
-    c01_pair_guarded evs (zip_obs ops tr) = true /\
-    ha_len (p_rb (prun (fixed_cc w) s0 ops)) = 1056.
-Proof. exact Pair_Proofs.c01_pair_channel_closed_refuted. Qed.
+(* regression for D17 (repaired): the op list that used to make A retransmit from the un-truncated
+   ring after its message channel was closed now satisfies the predicate and is in no class *)
+Theorem c01_pair_channel_closed_regression :
+  exists s0 : pair (CC := unit),
+    pair_new (fixed_cc 100000) (fun _ _ => tt) d17_cfg = Some s0 /\
+    let tr := ptrace (fixed_cc 100000) s0 d17_pair_ops in
+    let evs := pevents (fixed_cc 100000) s0 d17_pair_ops in
+    c01_pair_ok (zip_obs d17_pair_ops tr) = true /\ c01_kf1_class evs = false /\ c01_d17_class evs = false /\
+    In (KeClose SA) evs /\
+    ha_len (p_rb (prun (fixed_cc 100000) s0 d17_pair_ops)) = 528 /\
+    ha_len (p_wa (prun (fixed_cc 100000) s0 d17_pair_ops)) = 3000.
+Proof. exact Pair_Proofs.c01_pair_channel_closed_regression. Qed.
 
 Print Assumptions c01_dp_packet_bytes.
 Print Assumptions c01_dp_prefix.
 Print Assumptions c01_dp_prefix_unguarded_refuted.
 Print Assumptions c01_prefix_sys_partial.
 Print Assumptions c01_pair_unguarded_refuted.
+Print Assumptions c01_pair_channel_closed_regression.
 Print Assumptions c01_send_data_payload.
